@@ -8,7 +8,8 @@
 (*  stmt := [q|->"select", cols : name -> sqlexpr, from, where : seq,      *)
 (*           distinct, order : seq of [e, asc], off, lim (-1 = none)]      *)
 (*        | [q|->"union", all, l, r, order, off, lim]                      *)
-(*        | [err |-> "KeyError" | "EngineError" | "NotImplementedError"]   *)
+(*        | [err |-> "KeyError" | "EngineError" | "NotImplementedError"    *)
+(*                   | "InvalidSql"]                                        *)
 (*  from := [f|->"table", id, q] | [f|->"join", l, r, on : seq]            *)
 (*        | [f|->"subq", s, q]                                             *)
 (*  A column of a FROM item is referred to as [s|->"qcol", q, c]: q is the *)
@@ -122,6 +123,9 @@ Compile(S, q) ==
              r == Compile(S.skip.r, q \o "r")
          IN IF IsErr(l) THEN l ELSE IF IsErr(r) THEN r
             ELSE IF \E i \in DOMAIN S.sort : ~(ReqE(S.sort[i].e) \subseteq Cols(S.skip)) THEN CErr("KeyError")
+            \* the ORDER BY of a compound SELECT may only name its result columns (SQL standard;
+            \* SQLite: "ORDER BY term does not match any column in the result set")
+            ELSE IF \E i \in DOMAIN S.sort : S.sort[i].e.x # "ref" THEN CErr("InvalidSql")
             ELSE [q |-> "union", all |-> ~S.dedup, l |-> l, r |-> r,
                   order |-> [i \in DOMAIN S.sort |->
                                [e |-> SubE(SqlE(S.sort[i].e), [c \in Cols(S.skip) |-> [s |-> "out", c |-> c]]),
